@@ -1895,17 +1895,23 @@ Proof. split; reflexivity. Qed.
 
 (** ------------------------------------------------------------------ *)
 (** * C10 (2): value/TTL of one key under a concurrent save *)
-(** the value written is the key's value at one instant (the [get]); with no client command on
-    the key between the two reads the pair (value, deadline) is the key's at that instant *)
-Lemma snapshot_value_from_one_instant at_get between v dl :
-  snapshot_key at_get between = Some (v, dl) -> exists dl0, at_get = Some (v, dl0).
+Lemma states_of_reaches l : forall s l', In (fold_left cstep l s) (states_of s (l ++ l')).
 Proof.
-  unfold snapshot_key. destruct at_get as [[v0 dl0]|]; [|discriminate].
-  destruct (fold_left cstep between (Some (v0, dl0))) as [[v1 dl1]|]; intros H; inversion H; subst; eauto.
+  induction l as [|c l IH]; intros s l'; cbn [fold_left app states_of].
+  - destruct l'; cbn [states_of]; now left.
+  - right. apply IH.
 Qed.
-Lemma snapshot_quiet at_get : snapshot_key at_get [] = at_get.
-Proof. destruct at_get as [[v dl]|]; reflexivity. Qed.
-(** more generally: no tear when the commands in between leave the key as it was *)
-Lemma snapshot_consistent_if_unchanged at_get between :
-  fold_left cstep between at_get = at_get -> snapshot_key at_get between = at_get.
-Proof. intros H. unfold snapshot_key. rewrite H. destruct at_get as [[v dl]|]; reflexivity. Qed.
+(** whatever commands run during the save, the pair written for a key is the (value, deadline)
+    the key had at one single instant of the save; a key is left out only if it was absent or
+    past its deadline at that instant *)
+Lemma snapshot_from_one_instant now s0 before after :
+  let at_read := fold_left cstep before s0 in
+  In at_read (states_of s0 (before ++ after)) /\
+  (snapshot_key now s0 before after = at_read \/
+   (snapshot_key now s0 before after = None /\ exists v dl, at_read = Some (v, Some dl) /\ dl <= now)).
+Proof.
+  intros at_read. split; [apply states_of_reaches|].
+  unfold snapshot_key. fold at_read. destruct at_read as [[v [dl|]]|]; [|left; reflexivity | left; reflexivity].
+  destruct (dl <=? now) eqn:E; [right | left; reflexivity].
+  split; [reflexivity|]. exists v, dl. split; [reflexivity | now apply Z.leb_le].
+Qed.
